@@ -46,6 +46,9 @@ evaluated although no command is executed (the one way a dry body can fail). -/
 structure Cmd where
   writes : List (Path × Bytes)
   need : Option Path
+  /-- `ignore_error: true` on the command: a failing exit status is swallowed inside `runCommand` and the
+  next command runs.  Only for plain commands: on a `task:` call the code does not look at it. -/
+  ignoreError : Bool
 deriving Repr, DecidableEq
 
 /-- the call's precondition does not hold in `fs` -/
@@ -64,6 +67,13 @@ structure Task where
   prompt : Bool
   dir : Option Nat             -- `dir:` (a directory id), `none` = project root
   cmds : List Cmd
+  /-- `ignore_error: true` on the task: a command (or `task:` call) that ends with a failing EXIT STATUS
+  is skipped over.  (A call that fails on its precondition does not end with an exit status.) -/
+  ignoreError : Bool := false
+  /-- indices of the `generates` entries written `${G:?}…`: expanding them is an ERROR while the
+  environment variable `G` is not set (`Env.gset`).  Only interpreted for method checksum (`checkErr`);
+  the driver rejects them elsewhere. -/
+  gguard : List Nat := []
 deriving Repr, DecidableEq
 
 structure Proj where
@@ -299,9 +309,12 @@ structure Env where
   the cancelled context makes the first command fail before it starts.  `RunTask` goes through
   `statusOnError` like for any failing command. -/
   cancelled : Bool := false
+  /-- the environment variable `G` is set in this invocation (entries `${G:?}…` can be expanded) -/
+  gset : Bool := true
 deriving Repr, DecidableEq
 
 inductive Exit | ok | failed | notUpToDate | cancelled | killed
+  | checkError                 -- the up-to-date check itself returned an error (exit status 1): nothing ran
 deriving Repr, DecidableEq
 
 structure Obs where
@@ -319,15 +332,21 @@ deriving Repr, DecidableEq
 def applyWrites (fs : FS) (ws : List (Path × Bytes)) (now : Nat) : FS :=
   ws.foldl (fun fs w => aset fs w.1 ⟨w.2, now⟩) fs
 
-/-- the command loop of `RunTask` -/
-def cmdLoop (e : Env) : List Cmd → Nat → FS → List Nat → FS × List Nat × LoopEnd
+/-- the failing exit status of this command is swallowed: `ignore_error` on the task (`ign`), or on a
+plain command -/
+def Cmd.ignorable (c : Cmd) (ign : Bool) : Bool := ign || (c.ignoreError && c.need.isNone)
+
+/-- the command loop of `RunTask` (`ign` = the task's `ignore_error`).  A command that fails with an
+exit status that is IGNORED has started (it is in the trace), wrote nothing, and the loop goes on. -/
+def cmdLoop (e : Env) (ign : Bool) : List Cmd → Nat → FS → List Nat → FS × List Nat × LoopEnd
   | [], _, fs, ran => (fs, ran, .done)
   | c :: cs, k, fs, ran =>
     if e.cancelled then (fs, ran, .failed)
     else if c.blocked fs then (fs, ran, .failed)
     else if e.killAt = some k then (fs, ran, .killed)
-    else if e.failAt = some k then (fs, ran ++ [k], .failed)
-    else cmdLoop e cs (k + 1) (applyWrites fs c.writes e.now) (ran ++ [k])
+    else if e.failAt = some k then
+      if c.ignorable ign then cmdLoop e ign cs (k + 1) fs (ran ++ [k]) else (fs, ran ++ [k], .failed)
+    else cmdLoop e ign cs (k + 1) (applyWrites fs c.writes e.now) (ran ++ [k])
 
 def mkdirTask (t : Task) (s : State) : State :=
   match t.dir with
@@ -351,9 +370,11 @@ def runBody (cfg : Cfg) (H : Hashes) (pr : Proj) (i : Nat) (t : Task) (dry : Boo
     else (s1, Obs.quiet)
   else
     let s1 := mkdirTask t s
-    let r := cmdLoop e t.cmds 0 s1.files []
+    let r := cmdLoop e t.ignoreError t.cmds 0 s1.files []
     let att : Attempt := ⟨i, fpNow H pr t s1.files, e.now, decide (r.2.2 = .done)⟩
     let s2 : State := { s1 with files := r.1, log := s1.log ++ [att] }
+    -- (a failure swallowed by `ignore_error` is no failure of the task: no `statusOnError` — F8C; before
+    -- it the TASK-level `ignore_error` still went through the clean-up: `C05_ignored_failure_old_rule`)
     match r.2.2 with
     | .done => (s2, ⟨.ok, false, r.2.1, []⟩)
     | .failed => (onError t s2, ⟨.failed, false, r.2.1, []⟩)
@@ -366,6 +387,21 @@ def listJson (cfg : Cfg) (H : Hashes) (pr : Proj) (now : Nat) : List Task → St
     let r := isUpToDate H pr t cfg.listDry now s
     listJson cfg H pr now ts r.1 (acc ++ [r.2])
 
+/-- `ChecksumChecker.IsUpToDate`, the loop over the `generates` entries (F8D: BEFORE the checksum is
+recorded): negated entries are skipped; an entry that cannot be expanded (`${G:?}…` while `G` is not
+set) is an ERROR; an entry that matches nothing ends the loop (verdict "not up to date", no error). -/
+def gensErr (gset : Bool) (guard : List Nat) (fs : FS) : List Pat → Nat → Bool
+  | [], _ => false
+  | g :: gs, k =>
+    if g.neg then gensErr gset guard fs gs (k + 1)
+    else if !gset && guard.contains k then true
+    else if g.ms.any (ahas fs) then gensErr gset guard fs gs (k + 1) else false
+
+/-- the up-to-date check of this task returns an error in this invocation (method checksum only:
+`TimestampChecker` swallows every expansion error) -/
+def checkErr (t : Task) (e : Env) (fs : FS) : Bool :=
+  decide (t.method = .checksum) && !t.sources.isEmpty && gensErr e.gset t.gguard fs t.generates 0
+
 /-- the `status:` commands of this run are interrupted by the failure of a sibling (`Env.cancelled`):
 whatever the checkers say, the task is not reported up to date -/
 def interrupted (t : Task) (e : Env) : Bool := e.cancelled && !t.status.isEmpty
@@ -375,12 +411,14 @@ def invoke (cfg : Cfg) (H : Hashes) (pr : Proj) (i : Nat) (m : Mode) (e : Env) (
   | .list => (s, Obs.quiet)
   | .summary => (s, Obs.quiet)
   | .listJson =>
+    if pr.tasks.any (fun t => checkErr t e s.files) then (s, ⟨.checkError, false, [], []⟩) else
     let r := listJson cfg H pr e.now pr.tasks s []
     (r.1, ⟨.ok, false, [], r.2⟩)
   | .status =>
     match pr.tasks[i]? with
     | none => (s, ⟨.failed, false, [], []⟩)
     | some t =>
+      if checkErr t e s.files then (s, ⟨.checkError, false, [], []⟩) else
       let r := isUpToDate H pr t true e.now s
       (r.1, ⟨if r.2 then .ok else .notUpToDate, false, [], []⟩)
   | .force =>
@@ -391,12 +429,16 @@ def invoke (cfg : Cfg) (H : Hashes) (pr : Proj) (i : Nat) (m : Mode) (e : Env) (
     match pr.tasks[i]? with
     | none => (s, ⟨.failed, false, [], []⟩)
     | some t =>
+      -- (F8D: the `generates` entries are looked at BEFORE the checksum is recorded: nothing is left
+      -- behind; before it the state was `(sumCheck H pr t false s).1`: `C04_check_error_old_rule`)
+      if checkErr t e s.files then (s, ⟨.checkError, false, [], []⟩) else
       let r := isUpToDate H pr t false e.now s
       if r.2 && !interrupted t e then (r.1, ⟨.ok, true, [], []⟩) else runBody cfg H pr i t false e r.1
   | .dry =>
     match pr.tasks[i]? with
     | none => (s, ⟨.failed, false, [], []⟩)
     | some t =>
+      if checkErr t e s.files then (s, ⟨.checkError, false, [], []⟩) else
       let r := isUpToDate H pr t true e.now s
       if r.2 then (r.1, ⟨.ok, true, [], []⟩) else runBody cfg H pr i t true e r.1
 
